@@ -97,6 +97,10 @@ func (e *Engine) intrinsic(st *State, fn *ssa.Function, args []Value, ci ssa.Val
 		case "vSymbolic":
 			e.finish(st, ci, Bool(true), fd)
 			return true
+		case "vForeign":
+			// the executor has no background goroutines: everything runs on the harness thread
+			e.finish(st, ci, Bool(false), fd)
+			return true
 		case "vAssume":
 			c := args[0].(*Term)
 			if !e.flushAsserts(st) {
